@@ -29,8 +29,17 @@ func HarnessDrainQuiescent() {
 	deployTimeout := vDur("deploy_timeout")
 	drainTimeout := vDur("drain_timeout")
 	topts := TargetOptions{HealthCheckConfig: HealthCheckConfig{Path: "/up", Interval: interval, Timeout: ptimeout}}
-	svc, _ := vInstallOldService(router, topts)
+	svc, oldLB := vInstallOldService(router, topts)
 	_ = svc
+	twoOld := !vDirected && vParam("old_targets", 1) == 2
+	if twoOld {
+		// the service has two targets (requests alternate between them): both are drained against one deadline
+		t2, _ := NewTarget("old1:80", topts)
+		t2.state = TargetStateHealthy
+		t2.stateConsumer = oldLB
+		oldLB.all = append(oldLB.all, t2)
+		oldLB.updateHealthyTargets()
+	}
 	cmd := vChoose("command", 3) // 0 redeploy, 1 pause, 2 stop
 	// rollout scenario: the service also has a rollout target, the clients have opted in to it, and the rollout may be
 	// stopped (`rollout stop`) while their requests are in flight there; pause / stop must still drain that target
@@ -94,7 +103,8 @@ func HarnessDrainQuiescent() {
 		switch planKind {
 		case 0:
 			plan.service = vDur("service_time" + vItoa(c))
-			plan.upgradeHeader = vChoose("upgrade_header"+vItoa(c), 2) == 1
+			hdr := vChoose("request_header"+vItoa(c), 3)
+			plan.upgradeHeader, plan.eventStream = hdr == 1, hdr == 2
 		case 1:
 			plan.never = true
 		case 2:
@@ -182,6 +192,9 @@ func HarnessDrainQuiescent() {
 	vAssert(err == nil, "drain: command succeeds")
 
 	drainedTargets := []string{"old:80"}
+	if twoOld {
+		drainedTargets = []string{"old:80", "old1:80"}
+	}
 	if rolloutScenario {
 		drainedTargets = []string{"rold:80"}
 		if vParam("rollout", 0) == 2 {
